@@ -117,6 +117,13 @@ STEP_DEPS = {
  'frame_enc_dns': ['C05', 'C08'],
  'frame_question': ['C03', 'C05', 'C10'],
  'frame_rr': ['C03', 'C09'],
+ 'frame_opt': ['C09', 'C15'],
+ 'frame_apl': ['C09', 'C17'],
+ 'frame_svcb': ['C09', 'C16'],
+ 'svc_numbers_agree': ['C16'],
+ 'svc_dec_agree': ['C03', 'C04', 'C16'],
+ 'svc_enc_agree': ['C05', 'C16'],
+ 'opt_dispatch_agree': ['C15'],
  'ext_c18_no_compressing_writer': ['C18'],
  'ext_reader_writer_symmetric': ['C02', 'C10'],
  'ext_in_only_symmetric': ['C02', 'C03'],
